@@ -81,14 +81,35 @@ func jobsFor(prop, tier string) []*Job {
 			Merge: map[string]bool{"(*github.com/vulcand/oxy/v2/memmetrics.RollingCounter).cleanup": true, "(*github.com/vulcand/oxy/v2/memmetrics.RollingCounter).incBucketValue": true},
 			Bounds: "ratio counter with 3 buckets of 1s, 2 symbolic increments to A or B with symbolic advances"})
 	case "C05":
-		k, depth := 3, 1
+		type cfg struct{ k, depth, parts int }
+		cfgs := []cfg{{2, 2, 4}, {3, 1, 8}}
 		if thorough {
-			k, depth = 3, 2
+			cfgs = []cfg{{3, 2, 16}, {4, 1, 16}}
 		}
-		for part := 0; part < 16; part++ {
-			add(&Job{Name: fmt.Sprintf("O2-history/k=%d,depth=%d,part=%d", k, depth, part), Pkg: "cbreaker", Harness: "VerifC05History", Params: p("k", k, "depth", depth, "part", part),
-				Bounds: fmt.Sprintf("%d requests from a fresh breaker, each may overlap with nested requests (depth<=%d), symbolic clock gaps and latencies up to 2^41 ns, symbolic fallback/recovery/check durations in [1,2^40] ns, symbolic condition outcome per evaluation, symbolic response codes", k, depth)})
+		for _, c := range cfgs {
+			for part := 0; part < c.parts; part++ {
+				add(&Job{Name: fmt.Sprintf("O2-history/k=%d,depth=%d,part=%d", c.k, c.depth, part), Pkg: "cbreaker", Harness: "VerifC05History", Params: p("k", c.k, "depth", c.depth, "part", part, "parts", c.parts),
+					Bounds: fmt.Sprintf("%d requests from a fresh breaker, each may overlap with nested requests (depth<=%d), symbolic clock gaps and latencies up to 2^41 ns, symbolic fallback/recovery/check durations in [1,2^40] ns, symbolic condition outcome per evaluation, symbolic response codes and ramp decisions", c.k, c.depth)})
+			}
 		}
+	case "C12":
+		A := 3
+		durs := []int{7, 1000000000, 10000000000, 3600000000000}
+		if thorough {
+			A = 7
+		}
+		for _, d := range durs {
+			add(&Job{Name: fmt.Sprintf("O1-decision/A=%d,dur=%dns", A, d), Pkg: "cbreaker", Harness: "VerifC12Decision", Params: p("A", A, "dur", d), IncKind: "cvc5", SkipInc: true, TimeoutS: 120,
+				Solvers: []string{"cvc5", "z3"},
+				Bounds:  fmt.Sprintf("recovery duration %d ns, counters (allowed,denied) in [0,%d]^2, elapsed time symbolic in [0,duration]; IEEE-754 float64 semantics exact", d, A)})
+		}
+		B := 3
+		if thorough {
+			B = 6
+		}
+		add(&Job{Name: fmt.Sprintf("O2-fraction/B=%d,dur=10s", B), Pkg: "cbreaker", Harness: "VerifC12Fraction", Params: p("B", B, "dur", 10000000000), IncKind: "cvc5", SkipInc: true, TimeoutS: 300,
+			Solvers: []string{"cvc5", "z3"}, Inductive: true,
+			Bounds:  fmt.Sprintf("recovery duration 10 s, counters symbolic in [0,2^%d), two symbolic instants el0<=el1<=duration; one decision step from any state satisfying the float-level invariant", B)})
 	}
 	return js
 }
